@@ -85,6 +85,7 @@ type Shared struct {
 	deadline  time.Time
 	stop      bool
 	noMerge   bool
+	witnessAll bool
 	byFirst   map[int64]int
 }
 
@@ -350,7 +351,7 @@ func (w *Worker) runPath(fn *ssa.Function, prefix []int64) (alts [][]int64) {
 	for f := range ex.funcs {
 		sh.funcs[f] = true
 	}
-	wantWitness := outcome == "done" && len(sh.witnesses) < sh.witnessTarget() && (st.done%sh.witnessStride() == 0)
+	wantWitness := outcome == "done" && (sh.witnessAll || (len(sh.witnesses) < sh.witnessTarget() && (st.done%sh.witnessStride() == 0)))
 	sh.mu.Unlock()
 	if wantWitness {
 		w.makeWitness(ex)
@@ -581,7 +582,7 @@ type harnessResult struct {
 func exploreHarness(prog *ssa.Program, fn *ssa.Function, opt runOpts, known []knownFinding, wantCovers []string) *harnessResult {
 	t0 := time.Now()
 	sh := &Shared{prog: prog, tier: opt.tier, unwind: opt.unwind, maxSteps: opt.maxSteps, seed: opt.seed,
-		solverKind: opt.solver, timeoutMS: opt.timeoutMS, known: known, mapRotate: opt.mapRotate,
+		solverKind: opt.solver, timeoutMS: opt.timeoutMS, known: known, mapRotate: opt.mapRotate, witnessAll: opt.witnessAll,
 		covers: map[string]bool{}, outside: map[string]int{}, candKeys: map[string]int{}, knownSeen: map[string]*candidate{},
 		funcs: map[string]bool{}, inconcl: map[string]int{}, initPkgs: map[string]bool{}, harness: fn.Name(), byFirst: map[int64]int{}}
 	if opt.budgetS > 0 {
@@ -690,6 +691,7 @@ type runOpts struct {
 	workers   int
 	mapRotate int
 	budgetS   int
+	witnessAll bool
 }
 
 func tail(s []string, n int) []string {
